@@ -247,8 +247,11 @@ class _FileProxy:
 
     def close(self):
         if not self._real.closed:
-            self._ip.note(f"close:{self._name}")
+            # the handle follows the inode: after a rename the file being flushed has another name
+            nm = self._ip.renamed.get(self._name, self._name)
+            idx = self._ip._pre(f"close:{nm}", can_raise=False)
             self._real.close()
+            self._ip._post(idx)
 
     def write(self, b):
         return self._real.write(b)
@@ -263,9 +266,14 @@ class Interposer:
 
     Real events: open:<n> dump:<n> close:<n> replace:<a>:<b> rename:<a>:<b> remove:<n>, where
     <n> is base/new/bak (by suffix of the advertised autosave path) or other:<file name>.
-    `crash = ("before", i)`: raise `Crash` instead of performing the i-th event of the
-    `save_simulation` call number `crash_save` (1-based); `("mid", i)`: the i-th event must be a
-    dump — write half of the bytes, then raise.
+    `crash = (mode, i)` refers to the i-th event of the `save_simulation` call number `crash_save`
+    (1-based; any call when None):
+      ("before", i)      raise `Crash` instead of performing the event (exception-style crash: the
+                         `with` block unwinds and flushes);
+      ("mid", i)         the event must be a dump — write half of the bytes, then raise;
+      ("kill_before", i) `os._exit(9)` immediately before the call  } process-kill semantics: nothing
+      ("kill_after", i)  `os._exit(9)` immediately after the call   } unwinds, write buffers are lost;
+      ("kill_mid", i)    dump: write half of the bytes, `os._exit(9)`} only meaningful in a forked child.
     """
 
     def __init__(self):
@@ -282,6 +290,7 @@ class Interposer:
         self.on_saved = None                 # callback(impl, k) right after a save_simulation that wrote
         self.in_save = False
         self.fired = False
+        self.renamed: dict[str, str] = {}    # open handle name -> current name of its inode
 
     # naming
     def name(self, p) -> str:
@@ -299,48 +308,68 @@ class Interposer:
         self.events.append(ev)
         self.all_events.append(ev)
 
-    def _maybe_crash(self, kind_event: str):
-        """called *before* performing an event inside save_simulation"""
+    def _armed(self):
         if self.crash is None or not self.in_save or self.fired:
             return False
-        if self.crash_save is not None and self.save_calls != self.crash_save:
-            return False
-        mode, idx = self.crash
-        if idx == len(self.events):
-            if mode == "before":
+        return self.crash_save is None or self.save_calls == self.crash_save
+
+    def _pre(self, ev: str, can_raise: bool = True) -> int:
+        """called before performing an event; returns its index; may crash"""
+        idx = len(self.events)
+        if self._armed() and self.crash[1] == idx:
+            mode = self.crash[0]
+            if mode == "kill_before":
+                os._exit(9)
+            if mode == "before" and can_raise:
                 self.fired = True
-                raise Crash(f"before event {idx} ({kind_event}) of save {self.save_calls}")
-            return True  # mid: handled by the dump wrapper
-        return False
+                raise Crash(f"before event {idx} ({ev}) of save {self.save_calls}")
+        self.note(ev)
+        return idx
+
+    def _post(self, idx: int):
+        if self._armed() and self.crash == ("kill_after", idx):
+            os._exit(9)
+
+    def _mid(self, idx: int):
+        return self._armed() and self.crash[1] == idx and self.crash[0] in ("mid", "kill_mid")
 
     # wrappers
     def open(self, file, mode="r", *a, **kw):
         if "w" in mode and self.in_save:
             nm = self.name(file)
-            self._maybe_crash(f"open:{nm}")
-            self.note(f"open:{nm}")
-            return _FileProxy(open(file, mode, *a, **kw), self, nm)
+            idx = self._pre(f"open:{nm}")
+            fh = _FileProxy(open(file, mode, *a, **kw), self, nm)
+            self.renamed.pop(nm, None)
+            self._post(idx)
+            return fh
         return open(file, mode, *a, **kw)
 
     def dump(self, obj, fh, *a, **kw):
         nm = fh._name if isinstance(fh, _FileProxy) else "other:?"
-        mid = self._maybe_crash(f"dump:{nm}")
-        if self.on_dump is not None:
-            self.on_dump(obj, self.save_calls)
-        if mid:
+        if self._mid(len(self.events)):
+            if self.on_dump is not None:
+                self.on_dump(obj, self.save_calls)
             data = pickle.dumps(obj, *a, **kw)
             fh.write(data[: max(1, len(data) // 2)])
+            if self.crash[0] == "kill_mid":
+                os._exit(9)
             self.fired = True
             raise Crash(f"inside dump of save {self.save_calls}: {len(data) // 2} of {len(data)} bytes written")
-        self.note(f"dump:{nm}")
+        idx = self._pre(f"dump:{nm}")
+        if self.on_dump is not None:
+            self.on_dump(obj, self.save_calls)
         real = fh._real if isinstance(fh, _FileProxy) else fh
-        return pickle.dump(obj, real, *a, **kw)
+        r = pickle.dump(obj, real, *a, **kw)
+        self._post(idx)
+        return r
 
     def _mv(self, kind, fn, a, b):
-        ev = f"{kind}:{self.name(a)}:{self.name(b)}"
-        self._maybe_crash(ev)
-        self.note(ev)
-        return fn(a, b)
+        na, nb = self.name(a), self.name(b)
+        idx = self._pre(f"{kind}:{na}:{nb}")
+        r = fn(a, b)
+        self.renamed[na] = nb
+        self._post(idx)
+        return r
 
     def replace(self, a, b):
         return self._mv("replace", os.replace, a, b)
@@ -349,10 +378,10 @@ class Interposer:
         return self._mv("rename", os.rename, a, b)
 
     def remove(self, a):
-        ev = f"remove:{self.name(a)}"
-        self._maybe_crash(ev)
-        self.note(ev)
-        return os.remove(a)
+        idx = self._pre(f"remove:{self.name(a)}")
+        r = os.remove(a)
+        self._post(idx)
+        return r
 
     unlink = remove
 
@@ -380,6 +409,7 @@ class Interposer:
             k = ip.save_calls
             ip.base = Path(impl.autosave_file)
             ip.events = []
+            ip.renamed = {}
             if ip.clock is not None and ip.schedule is not None:
                 ip.clock.now = float(ip.schedule(k))
             impl._verif_snap = k
@@ -399,22 +429,17 @@ class Interposer:
             yield self
 
 
-def canon_ops(events: list[str], snap) -> list[str] | None:
-    """real events -> the model's operations (`dump`+`close` = one non-atomic `write`)."""
-    out, i = [], 0
-    while i < len(events):
-        e = events[i]
+def canon_ops(events: list[str], snap) -> list[str]:
+    """real events -> the model's operations: dump = buffered `write`, close = flush (`close`), both tagged
+    with the snapshot number."""
+    out = []
+    for e in events:
         if e.startswith("dump:"):
-            nm = e.split(":", 1)[1]
-            if i + 1 < len(events) and events[i + 1] == f"close:{nm}":
-                out.append(f"write:{nm}:{snap}")
-                i += 2
-                continue
-            return None
-        if e.startswith("close:"):
-            return None
-        out.append(e)
-        i += 1
+            out.append(f"write:{e.split(':', 1)[1]}:{snap}")
+        elif e.startswith("close:"):
+            out.append(f"{e}:{snap}")
+        else:
+            out.append(e)
     return out
 
 
